@@ -93,6 +93,21 @@ TRANSLATOR_TIES = {
                    "(Liquid/MapIterFacts.lean) is a reading of the source, not a proof; iteration reached through other APIs "
                    "(e.g. fmt printing a map, which sorts keys itself; encoding/json) is not listed",
     },
+    "global_calls_audited": {
+        "props": ["C02", "C03", "C04"],
+        "module": "Proofs.GlobalCalls",
+        "claim": "Source tie against package-level caches (translator T3, call facts, re-run on every check): every call outside "
+                 "init that hands a package-level variable of the library - its address, or the pointer, map, slice or interface "
+                 "it holds - to a function or method outside the read-only list (regexp, reflect, fmt, strings, strconv, sort, "
+                 "time, ...) is listed with go/ssa, and the obligation global_calls_audited re-checks that only the five audited "
+                 "read-only variables occur (two reflect.Type values, invalidLoc, the two loop sentinels); a sync.Map, sync.Pool "
+                 "or memo table added at package level - state that survives a render and is shared by all goroutines - breaks "
+                 "the check.",
+        "trusted": "translator T3 call facts (translate/writes.go globalCalls, go/ssa, nothing executed): receivers and arguments "
+                   "whose address roots in a package-level variable of the library; callees in the standard-library read-only list are "
+                   "trusted not to write through their arguments; the five audited variables (Liquid/ConcFacts.lean) are justified by "
+                   "reading the callee; state kept in struct fields of the engine or of a template is not covered by this rule",
+    },
 }
 for _name, _t in TRANSLATOR_TIES.items():
     for _pid in _t["props"]:
